@@ -118,7 +118,7 @@ INFO = {
  'C15-4a': ('`jsonpatch_errc` renumbered: `invalid_patch` == 0', 'after'),
  'C15-4b': ('move: undo entry of the removal logged only after the insertion', 'after'),
  'C16-4a': ('short_string_storage copy: `memcpy` length without `sizeof(char_type)`', 'after'),
- 'C16-4b': ('compare(): double vs uint64 reads `int64_storage`', 'after'),
+ 'C16-4b': ('sorted object `Comp` rewritten with `std::lexicographical_compare` (signed char order, the sort uses char_traits)', 'after'),
  'C17-4a': ('`find_first_not_set` returns `indices.count()`', 'after'),
  'C17-4b': ('cursor-to-json `uint64_value` case drops the tag', 'before'),
  'C18-4a': ('csv parse_event(uint64_t): records `staj_events::int64_value`', 'after'),
